@@ -221,11 +221,16 @@ Proof.
   - eapply replace_feasible_old; exact G.
 Qed.
 
-Lemma loose_results_ok inp rf : Forall (rule_res_ok inp) (loose_results inp rf).
+Lemma loose_loop_ok inp rf ps : Forall (rule_res_ok inp) (loose_loop inp rf ps).
 Proof.
-  unfold loose_results. apply Forall_app. split.
-  - apply Forall_flat_map. apply Forall_forall. intros p _. destruct (is_learner p); [constructor; [exact I|constructor]|constructor].
-  - apply Forall_forall. intros x Hx. apply in_map_iff in Hx as (p & <- & _). exact I.
+  induction ps as [|p rest IH]; cbn [loose_loop]; [apply better_location_ok|].
+  destruct (fix_loose inp rf p) as [[st o]| |] eqn:E; [|none_case|exact IH].
+  constructor; [|constructor]. unfold fix_loose in E.
+  destruct (leader (i_region inp)); [|discriminate].
+  repeat match type of E with
+  | (if ?c then _ else _) = _ => destruct c
+  | match ?c with _ => _ end = _ => destruct c
+  end; inversion E; subst; exact I.
 Qed.
 
 Lemma fix_rule_peer_ok inp rf : Forall (rule_res_ok inp) (fix_rule_peer inp rf).
@@ -237,8 +242,7 @@ Proof.
     apply guard_op_some in G as (G & _ & <-). cbn.
     do 4 eexists. split; [rewrite Es; exact Ht|reflexivity].
   - destruct (first_unexpected _ _) as [[p st]|]; [apply rule_replace_ok|].
-    destruct (rf_loose rf); [apply better_location_ok|].
-    apply Forall_app; split; [apply loose_results_ok|]. apply Forall_app; split; [none_case|apply better_location_ok].
+    apply loose_loop_ok.
 Qed.
 
 Lemma fix_orphan_ok inp : Forall (rule_res_ok inp) (fix_orphan inp).
